@@ -16,6 +16,18 @@ Proof. vm_compute. reflexivity. Qed.
 Print Assumptions table_factors_positive.
 
 (* no spelling is an alias of two units (in particular: of units of two families) *)
+(* every canonical unit name (what Scale reports, and what report.selectOutputUnit feeds back as the
+   target unit) is itself an accepted spelling of that unit -- also where two names differ only in
+   case ("m*GCU" / "M*GCU") *)
+Theorem canonical_names_accepted :
+  forallb (fun ut => forallb (fun u =>
+    match sniff_unit ut (u_name u) with
+    | Some w => String.eqb (u_name w) (u_name u) && Qeq_bool (u_factor w) (u_factor u)
+    | None => false
+    end) (ut_units ut)) unit_types = true.
+Proof. vm_compute. reflexivity. Qed.
+Print Assumptions canonical_names_accepted.
+
 Theorem aliases_unique : nodupb (all_aliases unit_types) = true.
 Proof. vm_compute. reflexivity. Qed.
 Print Assumptions aliases_unique.
